@@ -121,8 +121,14 @@ impl TtlSweeper {
             last_run: self.stats.last_run.clone(),
         };
 
+        #[cfg(feature = "verif")]
+        let verif_token = crate::verif::token();
         let handle = thread::spawn(move || {
+            #[cfg(feature = "verif")]
+            crate::verif::adopt(verif_token, "sweeper");
             run_sweeper_loop(store, config, shutdown, stats);
+            #[cfg(feature = "verif")]
+            crate::verif::retire("sweeper");
         });
 
         self.handle = Some(handle);
@@ -134,6 +140,8 @@ impl TtlSweeper {
 
         if let Some(handle) = self.handle.take() {
             if handle.thread().id() != thread::current().id() {
+                #[cfg(feature = "verif")]
+                crate::verif::wait_until("join_sweeper", &|| handle.is_finished());
                 let _ = handle.join();
             }
         }
@@ -257,6 +265,8 @@ fn sample_and_expire_batch(store: &Arc<FeoxStore>, config: &TtlConfig) -> (u64, 
         if ttl_expiry > 0 && ttl_expiry < now {
             #[cfg(test)]
             crate::test_hooks::pause_at(crate::test_hooks::TTL_AFTER_EXPIRED_SAMPLE);
+            #[cfg(feature = "verif")]
+            crate::verif::point("sweep_sampled", 0, 0);
 
             let old_value_len = record.value_len;
             let record_size = record.calculate_size();
